@@ -767,7 +767,9 @@ theorem step_uSetCoef (desc : FieldDesc) (s : St α) (op : String) (a d e : Nat)
     step env desc s (.uSetCoef op a d e)
       = (let ra := uGet env s a; let re := eGet env s e
          let F := F0 env
-         let v := if op == "set" then UPoly.setCoef F ra.val d re.val
+         let stuck := op != "set" && !goodScalar re && !re.foreign && !F.isZero (UPoly.coef F ra.val d)
+         let v := if stuck then ra.val
+                  else if op == "set" then UPoly.setCoef F ra.val d re.val
                   else if op == "inc" then UPoly.incCoef F ra.val d re.val
                   else UPoly.decCoef F ra.val d re.val
          let r : UReg α := { ra with val := v }
@@ -910,7 +912,9 @@ theorem step_bSetCoef (desc : FieldDesc) (s : St α) (op : String) (a : Nat) (d 
     step env desc s (.bSetCoef op a d e)
       = (let ra := bGet s a; let re := eGet env s e
          let F := F0 env
-         let v := if op == "set" then BPoly.setCoef F ra.val d re.val
+         let stuck := op != "set" && !goodScalar re && !re.foreign && ra.val.any (·.1 == d)
+         let v := if stuck then ra.val
+                  else if op == "set" then BPoly.setCoef F ra.val d re.val
                   else if op == "inc" then BPoly.incCoef F ra.val d re.val
                   else BPoly.decCoef F ra.val d re.val
          let r : BReg α := { ra with val := v }
